@@ -12,29 +12,32 @@ import (
 
 // Event is one debug-tracer (or Aspect-logger) callback with copies of everything it was given.
 type Event struct {
-	Kind   string // start end enter exit state fault aspenter aspexit txstart txend
-	Op     byte
-	Pc     uint64
-	Gas    uint64
-	Cost   uint64
-	Depth  int
-	Err    string
-	HasErr bool
-	From   common.Address
-	To     common.Address
-	Self   common.Address // executing contract's storage address (state/fault)
-	Create bool
-	Input  []byte
-	Value  *big.Int
-	Output []byte
-	Used   uint64
-	Stack  []uint256.Int // bottom first
-	Mem    []byte
-	RData  []byte
-	JP     int64
-	Aspect common.Address
-	ResGas uint64
-	Req    proto.Message
+	Kind        string // start end enter exit state fault aspenter aspexit txstart txend
+	Op          byte
+	Pc          uint64
+	Gas         uint64
+	Cost        uint64
+	Depth       int
+	Err         string
+	HasErr      bool
+	CGas        uint64 // scope.Contract.Gas at the time of the callback
+	ErrIsRevert bool   // err == vm.ErrExecutionReverted (identity)
+	ErrIsOog    bool   // err == vm.ErrOutOfGas (identity)
+	From        common.Address
+	To          common.Address
+	Self        common.Address // executing contract's storage address (state/fault)
+	Create      bool
+	Input       []byte
+	Value       *big.Int
+	Output      []byte
+	Used        uint64
+	Stack       []uint256.Int // bottom first
+	Mem         []byte
+	RData       []byte
+	JP          int64
+	Aspect      common.Address
+	ResGas      uint64
+	Req         proto.Message
 }
 
 // Recorder implements vm.EVMLogger and types.AspectLogger.
@@ -76,14 +79,14 @@ func (r *Recorder) CaptureStart(env *vm.EVM, from common.Address, to common.Addr
 }
 func (r *Recorder) CaptureEnd(output []byte, gasUsed uint64, err error) {
 	s, h := errStr(err)
-	r.Events = append(r.Events, Event{Kind: "end", Output: cp(output), Used: gasUsed, Err: s, HasErr: h})
+	r.Events = append(r.Events, Event{Kind: "end", Output: cp(output), Used: gasUsed, Err: s, HasErr: h, ErrIsRevert: err == vm.ErrExecutionReverted, ErrIsOog: err == vm.ErrOutOfGas})
 }
 func (r *Recorder) CaptureEnter(typ vm.OpCode, from common.Address, to common.Address, input []byte, gas uint64, value *big.Int) {
 	r.Events = append(r.Events, Event{Kind: "enter", Op: byte(typ), From: from, To: to, Input: cp(input), Gas: gas, Value: cpBig(value)})
 }
 func (r *Recorder) CaptureExit(output []byte, gasUsed uint64, err error) {
 	s, h := errStr(err)
-	r.Events = append(r.Events, Event{Kind: "exit", Output: cp(output), Used: gasUsed, Err: s, HasErr: h})
+	r.Events = append(r.Events, Event{Kind: "exit", Output: cp(output), Used: gasUsed, Err: s, HasErr: h, ErrIsRevert: err == vm.ErrExecutionReverted, ErrIsOog: err == vm.ErrOutOfGas})
 }
 func (r *Recorder) step(kind string, pc uint64, op vm.OpCode, gas, cost uint64, scope *vm.ScopeContext, rData []byte, depth int, err error) {
 	if r.KeepOps != nil && !r.KeepOps(byte(op)) && err == nil {
@@ -94,6 +97,7 @@ func (r *Recorder) step(kind string, pc uint64, op vm.OpCode, gas, cost uint64, 
 	if scope != nil {
 		if scope.Contract != nil {
 			e.Self = scope.Contract.Address()
+			e.CGas = scope.Contract.Gas
 		}
 		if scope.Stack != nil {
 			e.Stack = append([]uint256.Int{}, scope.Stack.Data()...)
